@@ -9,6 +9,7 @@ import (
 	"fmt"
 	"io"
 	"strconv"
+	"strings"
 
 	oerr "github.com/orda-io/orda/client/pkg/errors"
 	"github.com/orda-io/orda/client/pkg/iface"
@@ -135,6 +136,28 @@ func NewRepCUID(idx int, typ string, cuid string) *Rep {
 		panic("cuid not installed: " + string(nm))
 	}
 	return r
+}
+
+// InstallClock sets the replica's logical clock (through GetMeta/SetMeta) so that
+// histories also run at large clock values.
+func InstallClock(r *Rep, lamport uint64) {
+	meta, err := r.W.GetMeta()
+	if err != nil {
+		panic(err)
+	}
+	var m map[string]interface{}
+	dec := json.NewDecoder(strings.NewReader(string(meta)))
+	dec.UseNumber()
+	if err := dec.Decode(&m); err != nil {
+		panic(err)
+	}
+	opid, _ := m["opID"].(map[string]interface{})
+	opid["l"] = json.Number(strconv.FormatUint(lamport, 10))
+	nm, _ := json.Marshal(m)
+	if err := r.W.SetMeta(nm); err != nil {
+		panic(err)
+	}
+	r.ResetTransaction()
 }
 
 // CUID returns the replica's client id.
